@@ -90,4 +90,7 @@ Bounded == D.counter <= MaxCounter
 \* between this agent's load and its CAS, but not far enough): needs three registrations around a period change.
 CasRetryAhead == \E a \in Agents : ag[a].pc = "a3" /\ D.desired # ag[a].c /\ D.desired < ag[a].target
 NoCasRetryWitness == CasRetryAhead => ~PrintT(<<"W", ToJson(hist)>>)
+\* the same branch in quiescent_barrier (the barrier's own CAS loop)
+BarrierCasRetryAhead == \E a \in Agents : ag[a].pc = "b3" /\ D.desired # ag[a].c /\ D.desired < ag[a].btarget
+NoBarrierCasRetryWitness == BarrierCasRetryAhead => ~PrintT(<<"W", ToJson(hist)>>)
 =============================================================================
